@@ -34,6 +34,8 @@ MAY_PANIC = {
     "nar_dev_utils::ZeroOneFloat::validate_01": "value outside [0,1]",
     "core::num::<impl usize>::pow": "overflow",
     "std::iter::Iterator::step_by": "step == 0",
+    "std::iter::Iterator::sum": "integer overflow in debug builds (std's Sum for integers uses `+`)",
+    "std::iter::Iterator::product": "integer overflow in debug builds",
     "core::slice::<impl [T]>::chunks": "size == 0",
     "core::slice::<impl [T]>::windows": "size == 0",
     "std::cell::RefCell::<T>::borrow_mut": "already borrowed",
@@ -154,7 +156,9 @@ def scope_reach(ctx, scopes):
         r = pscope.roots(f, s)
         ctx.floor("entry points of scope %s" % s, len(r), 1)
         roots += r
-    return cg.reachable(roots), roots
+    imp = pscope.implicit_roots(f)
+    ctx.extra["implicit_trait_roots"] = len(imp)
+    return cg.reachable(roots + imp), roots
 
 
 def rule_P_TABLE(ctx, scopes, floor_sites):
